@@ -53,8 +53,16 @@ def build(targets, timeout=1500):
         t0 = time.time()
         p = subprocess.run(["lake", "build"] + list(targets), cwd=LEAN, stdout=subprocess.PIPE,
                            stderr=subprocess.STDOUT, timeout=timeout)
-        if p.returncode == 0 and "d42model" in targets:
-            _private_driver()
+        if "d42model" in targets:
+            if p.returncode != 0:
+                # the property's theorems no longer build (that is reported as a broken obligation); the DRIVER is independent of
+                # them — build it on its own so that the correspondence and the search still run, from a private copy
+                q = subprocess.run(["lake", "build", "d42model"], cwd=LEAN, stdout=subprocess.PIPE, stderr=subprocess.STDOUT,
+                                   timeout=timeout)
+                if q.returncode == 0:
+                    _private_driver()
+            else:
+                _private_driver()
         return p.returncode == 0, p.stdout.decode(errors="replace"), time.time() - t0
 
 
